@@ -469,14 +469,17 @@ class C11(PropBase):
         "std slice::binary_search_by modelled as the Rust >= 1.82 halving loop; Vec::sort as a stable insertion sort; HashMap as insert log",
         "extraction: ExtrOcamlBasic only; ocaml/zconv.ml + ocaml/c11/main.ml glue; harness/src/bin/c11.rs",
     ]
-    assumptions = ["nom line grammar is exercised (the harness goes through SymbolFile::from_bytes), not modelled (C09/C10)",
+    assumptions = ["nom line grammar: the harness goes through SymbolFile::from_bytes; its byte-level model is C09's (Grammar.v, compared with the real parser by C09's check); "
+                   "c11_from_bytes composes that model with C11's for every byte string shorter than 2^32-1 bytes that parses - the integer ranges and the INLINE-range count of wf_file "
+                   "are now PROVED from the parser (c11_parser_records_in_range), what stays a hypothesis there is only the encoding of names / STACK WIN payloads as integers (enc_names_ok)",
                    "Symbolizer/SymbolSupplier caching between walk_stack and SymbolFile::fill_symbol is exercised, not modelled (C12)",
                    "hypothesis of the theorems: fewer than 2^32-1 INLINE ranges in one FUNC. The u32 depth counter of `for depth in 1..` can only "
                    "overflow after 2^32-1 successful lookups at depths 1..2^32-1, i.e. 2^32 INLINE records of pairwise distinct depth in one FUNC "
                    "(each its own line of >= 16 bytes, > 64 GiB of text, and 2^32 x 32-byte Inlinee = 128 GiB of Vec): not reachable by a file the parser can hold",
                    "module lookup in front-end S is the C08 table (Model.v mod_table/frame_of, proved in C08 and composed in c11_module_lookup_compose / c11_module_isolated_found)",
                    "c11_source_tie covers the lookup side (fill_symbol, find_nearest_public, get_inlinee_at_depth, get_outermost/innermost_sourceloc, memory_range, the filters and sort keys of finish_item, "
-                   "the forwarding in Symbolizer::fill_symbol / get_symbol_at_address / fill_source_line_info) and, on the parse side, insert_win_stack_info, StackInfoWin::memory_range and the merge step of the "
+                   "the forwarding in Symbolizer::fill_symbol / get_symbol_at_address / fill_source_line_info) and, on the parse side, insert_win_stack_info, StackInfoWin::memory_range, (round 5, literal pins) the record-collecting arms of "
+                   "parse_more / parse_func_subline (every FILE / INLINE_ORIGIN / PUBLIC / FUNC sub-record is kept, in file order) and the merge step of the "
                    "parser-local into_rangemap_safe; the trait into_rangemap_safe of minidump-common (line tables; C08's model), range_map::Range::intersects and std's sort / binary search stay correspondence-only"]
     manifest = {
         "text": "Theorems (Coq, all symbol files, addresses, module bases < 2^64, both build profiles): a reported FUNC is a record of the file whose range "
@@ -486,6 +489,12 @@ class C11(PropBase):
                 "call site / innermost line, reversed in the stack frame, and the depth loop ends within fuel = number of inlinees; for non-overlapping "
                 "files everything (incl. the STACK WIN parameter size) equals a linear scan; the whole table of C09's byte-level parser model (finish) is related to the text's records and fill_symbol on it "
                 "equals symbolize on them (c11_from_text); the module-list lookup of C08 composes with fill_symbol (c11_module_lookup_compose) and a module intersecting no other is the one found, also at the top of the address space (c11_module_isolated_found); "
+                "round 5: every record the parser state holds after any sequence of recognised or dropped lines is in the integer ranges the theorems assume and a FUNC block has at most as many INLINE ranges "
+                "as the text had bytes (c11_parser_records_in_range), so for EVERY byte string < 2^32-1 bytes that the parse loop of C09's model accepts (any read schedule, over-long lines dropped) finish returns a table, "
+                "the text's records are wf_file and fill_symbol on the parsed table equals symbolize on them (c11_from_bytes, c11_from_parse; c11_bytes_func_sound states the FUNC/PUBLIC clause directly of the bytes); "
+                "get_inlinee_at_depth is characterised exactly for every FUNC block, overlapping or with duplicate (depth,address) keys: it inspects the greatest kept record in Inlinee's derived order at or below (depth,addr) - unique, "
+                "independent of the algorithm and of record order (c11_inlinee_lookup_exact, c11_inlinee_duplicates) - and Function values and every symbolication are invariant under permuting the INLINE ranges of a FUNC block "
+                "(c11_inline_order_irrelevant; the harness re-parses each generated file with the INLINE ranges permuted and the oracle demands identical tables and callbacks); "
                 "for ALL files a covering FUNC record that intersects no other FUNC record is the one reported (c11_isolated_func_found); one symbolication makes 0 inline lookups without a covering FUNC and otherwise "
                 "1 + chain length <= INLINE ranges of the FUNC + 1, for any fuel (c11_inline_lookups_bounded); the lookup side of the model is regenerated from the Rust source on every run and proved equal "
                 "to the hand-written model (c11_source_tie: operators, operands, constants, table order, keys, loop bounds; structure pinned by templates that abort on unrecognised source). Model and real code (parser + fill_symbol + walk_stack over a module list + Symbolizer::get_symbol_at_address) are run on the same generated files in "
@@ -497,7 +506,11 @@ class C11(PropBase):
     def canon_impl(self, case, ans, profile):
         if ans.startswith("E;"):
             return "E"
-        return ans if not ans.startswith("P;;") else "P;;"
+        if ans.startswith("P;;"):
+            return "P;;"
+        # the permuted-twin verdict is judged by the oracle only (the model has no such field)
+        head, sep, last = ans.rpartition(";")
+        return head if sep and last.startswith("X") else ans
 
     def canon_model(self, case, ans):
         return ans if not ans.startswith("P;;") else "P;;"
@@ -878,8 +891,13 @@ class C11(PropBase):
         if ans.startswith("E"):
             return "harness could not parse its own symbol file: " + ans[:200]
         parts = ans.split(";")
-        if len(parts) != 1 + len(c.qs) or not parts[0].startswith("T"):
+        if len(parts) != 2 + len(c.qs) or not parts[0].startswith("T") or not parts[-1].startswith("X"):
             return "unparseable answer " + ans[:100]
+        twin = parts.pop()
+        if twin != "Xok":
+            # c11_inline_order_irrelevant: Function values and every symbolication are independent of the order of the INLINE ranges
+            return ("the same file with the INLINE ranges of each FUNC block in another order gives a different result (%s): "
+                    "inline frames / call-site lines depend on record order, so some order misreports the calls covering the address" % twin[1:])
         mranges = [rng_func(b, sz) if sz <= U32 else None for (b, sz, _) in c.mods]
         for q, p in zip(c.qs, parts[1:]):
             d, rest = p.split("/S")
@@ -1006,7 +1024,8 @@ class C11(PropBase):
         return None
 
     def nontrivial(self, case, ans):
-        return "|src=" in ans and any(("fn=-" not in p) and ("src=-" not in p or "inl=/" not in p) for p in ans.split(";")[1:])
+        return "|src=" in ans and any(("fn=-" not in p) and ("src=-" not in p or "inl=/" not in p)
+                                      for p in ans.split(";")[1:] if p.startswith("D"))
 
 
 PROP = C11()
